@@ -1,6 +1,6 @@
 """C18: fast_merkle_root is the definitional midstate tree (FastMerkle.tla)."""
 import os
-from lib.common import tlc, tlc_must_pass, vh, ToolError
+from lib.common import tlc, tlc_must_pass, vh, ToolError, validate_trace
 
 LEVEL = "model_checking"
 
@@ -30,20 +30,7 @@ def run(ck):
     rep = vh(["fmr", "record", "--out", trace, "--seed", ck.seed, "--maxn", 64, "--extra", extra])
     ck.add_vh(rep, eval_key="traces")
     n_traces = rep["stats"].get("traces", 0)
-    r = tlc("Trace_FastMerkle", "Trace_FastMerkle.cfg", w, env={"TRACE": trace}, trace_mode=True, timeout=1500)
-    ck.add_tlc(r, "trace validation of hook events")
-    if r["timeout"]:
-        raise ToolError("trace validation timed out")
-    if r["ok"]:
-        ck.cov["traces_validated_against_impl"] += n_traces
-    elif r["rejected"] or "is violated" in r["out"]:
-        line = [l for l in r["out"].splitlines() if "TRACE-REJECTED" in l or "is violated" in l]
-        ctx = r["out"][r["out"].find("TRACE-REJECTED"):][:600] if r["rejected"] else line[0]
-        ck.violation("C18/trace-rejected", {"trace": trace, "recorder": rep["args"]}, ctx)
-    else:
-        import sys
-        sys.stderr.write(r["out"][-3000:])
-        raise ToolError("trace validation failed to run")
+    validate_trace(ck, "Trace_FastMerkle", "Trace_FastMerkle.cfg", trace, n_traces, "C18/trace-rejected", rep["args"])
     ck.cov["rule"] = ("one case per leaf count n (all n in 0..%d via TLC-emitted root terms, plus sampled and boundary n up to %d); "
                       "distinct = distinct leaf counts; each evaluated on random leaves with an own SHA-256 compression function, "
                       "plus per-leaf edit and adjacent-swap sensitivity; traces = runs of the real function whose hook events "
